@@ -202,3 +202,16 @@ Theorem C07_src_exit_status : forall stats handle,
 Proof. exact x_main_collect_ok_iff. Qed.
 Print Assumptions C07_src_error_update_reaches_exit.
 Print Assumptions C07_src_exit_status.
+
+(* ---- the XMain and XDrv steps of the protocol model (ConcFault.v) compute what the translated main() and
+   Driver::copy compute: the model's exit status IS the code's ---- *)
+Theorem C07_src_model_main_step_is_translated_main : forall (errs : nat) (r : bool) stats handle,
+  has_error stats = Nat.ltb 0 errs -> (handle = None <-> r = true) ->
+  (x_main_collect stats handle = None <-> (if Nat.ltb 0 errs then false else r) = true).
+Proof. exact model_main_step_is_translated_main. Qed.
+Theorem C07_src_model_driver_step_is_translated_copy : forall (walk_ok : bool) (workers_ok : list bool) walk workers,
+  (walk = None <-> walk_ok = true) -> List.Forall2 (fun r b => r = None <-> b = true) workers workers_ok ->
+  (x_parfile_copy_result walk workers = None <-> walk_ok && List.forallb (fun b => b) workers_ok = true).
+Proof. exact model_driver_step_is_translated_copy. Qed.
+Print Assumptions C07_src_model_main_step_is_translated_main.
+Print Assumptions C07_src_model_driver_step_is_translated_copy.
